@@ -11,7 +11,7 @@ use std::process::Command;
 
 pub fn run(tier: Tier) -> ! {
     let chk = Check::new("C18", tier, "exploration");
-    let subs: Vec<&str> = tier.pick(vec!["C01", "C02", "C03", "C04", "C06", "C14", "C15", "C08"], vec!["C01", "C02", "C03", "C04", "C05", "C06", "C08", "C14", "C15"]);
+    let subs: Vec<&str> = tier.pick(vec!["C01", "C02", "C03", "C04", "C05", "C06", "C14", "C15"], vec!["C01", "C02", "C03", "C04", "C05", "C06", "C08", "C14", "C15"]);
     let mut builds: Vec<(&str, String)> = vec![("checked", "/verif/target/checked/vp-check".to_string())];
     let asan = "/verif/target/asan/x86_64-unknown-linux-gnu/release/vp-check";
     if tier == Tier::Thorough && std::path::Path::new(asan).exists() {
@@ -78,7 +78,7 @@ pub fn run(tier: Tier) -> ! {
         finish_preconfirmed(chk, "instrumented re-execution of the listed spaces", n);
     }
     chk.finish(
-        "the enumeration spaces of C01 (incl. large-window edges), C02, C03, C04, C06, C08 (history BFS + interleavings), C14, C15 (thorough: + C05) re-executed in the checked profile (thorough: + AddressSanitizer build when present); only debug-assertion failures, library precondition aborts, sanitizer reports and invalid UTF-8 count; counts are the sums over sub-runs",
+        "the enumeration spaces of C01 (incl. large-window edges), C02, C03, C04, C05 (parser totality + history BFS over all operations), C06, C14, C15 (thorough: + C08's interleavings and suffix-oracle BFS) re-executed in the checked profile (thorough: + AddressSanitizer build when present); only debug-assertion failures, library precondition aborts, sanitizer reports and invalid UTF-8 count; counts are the sums over sub-runs",
         true,
         &no_replay,
     )
